@@ -277,6 +277,36 @@ theorem v1_ok [BEq O] [LawfulBEq O] (cap : Nat) (ops : List (Op1 M O)) :
     exact this
   · left; simpa using hc
 
+/-! ## what "each subscriber … never twice" means: per SUBSCRIPTION, not per actor -/
+
+/-- (per actor = per subscription, summed) With the public configuration
+(`allow_duplicate_subscription = true`; the default port has no de-duplication at all) the port
+never merges or replaces subscriptions of the same actor: when the port task is parked, EVERY
+subscription ever made by an actor that has not exited is registered and complete. So an actor
+that subscribed k times has been sent the converter image of each later publication k times
+(once per subscription record — `v2_not_lost`: the records are exactly the `subscribe` calls).
+"Never twice" in C16 is therefore a statement per subscription; per actor it is FALSE by design
+for double subscriptions (see `demoDup`). -/
+theorem v2_per_actor (ops : List (Op2 M O)) (a : Nat)
+    (hidle : ((V2.init M O true).run ops).idle = true)
+    (halive : a ∉ ((V2.init M O true).run ops).dead) :
+    let st := (V2.init M O true).run ops
+    ∀ s ∈ st.all, s.actor = a → s ∈ st.live ∧ s.got = (st.after s).filterMap s.conv := by
+  intro st s hs ha
+  have hinv : Inv st := inv_run ops (inv_init true)
+  rcases all_idle hidle hs with hl | hg
+  · exact ⟨hl, hinv.exact hidle s hl⟩
+  · exact absurd (ha ▸ (hinv.removed (run_allowDup _ _) s hg).1) halive
+
+/-- the same actor subscribed twice: both records are kept and each receives everything
+published after it — the actor gets 2 and 3 twice -/
+def demoDup : V2 Nat Nat :=
+  (V2.init Nat Nat true).run
+    ([.subscribe 7 some, .publish 1, .subscribe 7 some, .publish 2, .publish 3] ++ List.replicate 20 .task)
+
+example : demoDup.idle = true := by decide
+example : demoDup.live.map (fun s => (s.key, s.actor, s.got)) = [(0, 7, [1, 2, 3]), (1, 7, [2, 3])] := by decide
+
 /-! ## eventually complete (no further publications) -/
 
 /-- (v2: eventually complete) After ANY history, if nothing more is enqueued, finitely many
@@ -535,6 +565,7 @@ example : demo1c.base.fwds.map (fun f => (f.got, f.ended)) = [([2, 3, 4, 5], fal
 #print axioms C16.v1_publish_nonblocking
 #print axioms C16.v1_ok
 #print axioms C16.v2_stopped_dropped
+#print axioms C16.v2_per_actor
 #print axioms C16.v2_eventually_complete
 #print axioms C16.v1_eventually_caught_up
 #print axioms C16.v1_stopped_dropped
